@@ -121,13 +121,32 @@ def alphabet_marks(tier):
     ]
 
 
+def cfg_second():
+    """Start state: a first POP3 session has come (sizes computed) and gone; the next pop_open is a second session."""
+    c = dict(cfg(3))
+    c["name"] = "c20-3-second"
+    c["prelude"] = list(c["prelude"]) + [{"s": "P", "op": "pop_open"}, {"s": "P", "op": "pop_list"}, {"s": "P", "op": "pop_drop"}]
+    return c
+
+
+def alphabet_second(tier):
+    P, A = "P", "A"
+    return [
+        {"s": A, "op": "del", "set": "*"}, {"s": A, "op": "del", "set": "1"}, {"s": A, "op": "append", "m": "INBOX"},
+        {"s": A, "op": "append", "m": "INBOX", "cid": "longcid0000000000000000000000000000000000000002"}, {"s": "env", "op": "poll", "dt": 21.0},
+        {"s": P, "op": "pop_open"}, {"s": P, "op": "pop_stat"}, {"s": P, "op": "pop_check", "n": 3}, {"s": P, "op": "pop_check", "n": 1},
+    ]
+
+
 def run(tier, seed, jobs):
     from .hcommon import run_h
 
     res = run_h(PROP, RULES, [{"cfg_ref": ("vf.props.c20", "cfg", [3]), "alphabet": alphabet(tier), "depth": 4 if tier == "quick" else 6,
                                 "label": "INBOX(3) dotted bodies"},
                                {"cfg_ref": ("vf.props.c20", "cfg_open", []), "alphabet": alphabet_marks(tier), "depth": 4 if tier == "quick" else 6,
-                                "label": "POP3 session open; DELE/RSET/QUIT bookkeeping (narrow, deep)"}],
+                                "label": "POP3 session open; DELE/RSET/QUIT bookkeeping (narrow, deep)"},
+                               {"cfg_ref": ("vf.props.c20", "cfg_second", []), "alphabet": alphabet_second(tier), "depth": 4 if tier == "quick" else 5,
+                                "label": "after a first POP3 session: messages go and come, a second session compares LIST n with RETR n"}],
                  ("C20", "C05"), jobs, seed,
                  ["one POP3 session and one IMAP session on INBOX(3); bodies with dot lines, a lone dot, no final newline",
                   "'octets RETR delivers' = un-stuffed payload between the status line and the terminating '.CRLF' line",
